@@ -105,7 +105,7 @@ fn run_perm(model: &Model, perm: &[usize], cx: &mut CaseCtx) {
     let mut ids = vec![];
     let mut lits = vec![];
     for d in &model.vars {
-        let (id, l) = new_var(&mut solver, d, None);
+        let (id, l) = new_var(&mut solver, d, None, &ids);
         ids.push(id);
         lits.push(l);
     }
